@@ -4,6 +4,59 @@ sys.path.insert(0, os.path.dirname(os.path.abspath(__file__)))
 import runner, corpus
 from items import item_txt, CFGS
 
+CLASS_TABLE = [
+    ('visited', r'was already applied to this item before'),
+    ('path_unnecessary', r'^unnecessary path qualification'),
+    ('crate_', r"the `crate` option has to be defined in it's own"),
+    ('none', r'^no traits found to implement'),
+    ('empty', r'^empty `derive_where` found'),
+    ('use_case', r'^this can be handled by standard'),
+    ('item_empty', r"doesn't support empty items"),
+    ('union', r"aren't supported by unions"),
+    ('option_trait', r"doesn't support this option"),
+    ('option', r'^unknown option$'),
+    ('options', r"doesn't support any options"),
+    ('option_syntax', r'^unexpected option syntax'),
+    ('option_empty', r'^empty attribute option found'),
+    ('option_required', r'requires an option$'),
+    ('option_duplicate', r'^duplicate `.*` option$'),
+    ('option_enum_skip_inner', r"^enums don't support `skip_inner`"),
+    ('option_skip_inner', r'^unexpected `skip` on a field when parent'),
+    ('option_skip_empty', r'^no fields to skip'),
+    ('option_skip_all', r'^unexpected constraint on `skip`'),
+    ('option_skip_duplicate', r'^duplicate `.*` constraint on `skip`'),
+    ('option_skip_no_trait', r'^no trait that can be skipped'),
+    ('option_skip_trait', r"^trait to be skipped isn't being implemented"),
+    ('skip_group', r'^unsupported skip group'),
+    ('path', r'^expected path,'),
+    ('trait_', r'^unsupported trait, expected one of'),
+    ('trait_syntax', r'^unsupported trait syntax'),
+    ('derive_where_delimiter', r'^expected `;` or `,'),
+    ('generic', r'^only type predicates are supported'),
+    ('generic_syntax', r'^expected type to bind to'),
+    ('trait_duplicate', r'^duplicate trait with the same bound'),
+    ('repr_unknown', r'^found unknown representation'),
+    ('repr_discriminant_invalid', r'require a integer representation'),
+    ('default', r'^`default` is only supported if'),
+    ('default_missing', r'^required `default` option'),
+    ('default_duplicate', r'^multiple `default` options'),
+    ('incomparable', r'^`incomparable` is only supported if'),
+    ('non_partial_incomparable', r'^`incomparable` is not supported if'),
+    ('incomparable_on_item_and_variant', r'cannot be specified on both item and variant'),
+    ('zeroize', r'^`Zeroize` option is only supported'),
+    ('deprecated_zeroize_drop', r'is deprecated, use `ZeroizeOnDrop`'),
+]
+_CT = [(n, re.compile(p)) for n, p in CLASS_TABLE]
+
+
+def classify(msg):
+    """error class (constructor of src/error.rs) of a message, 'syn' for syn's own errors"""
+    for n, p in _CT:
+        if p.search(msg or ''):
+            return n
+    return 'syn'
+
+
 def compare_case(m, i):
     """returns None if model result m and implementation result i agree, else a dict"""
     if i['status'] == 'unparsable':
